@@ -116,6 +116,12 @@ class DefaultActivation(rig.RecDecorator):
         return rig.Plugin.order(self)
 
 
+class DefaultActivation2(DefaultActivation):
+    @property
+    def name(self):
+        return 'DefaultActivation2'
+
+
 # ---------------------------------------------------------------------------------------
 # auth providers (config SERVICE_AUTH_PROVIDER takes a dotted name)
 from deep.api.auth import AuthProvider  # noqa: E402
